@@ -10,6 +10,7 @@ import RV.Base.Proto
                          literals whose comparison reaches a typed Python value — not modelled)
     n3 T              -> code points of the model's n3() text | error
     rd <norm> <text>  -> the term the model's from_n3 reads | dflt | unmodelled | error:<e>
+    rdq <norm> <text> p1 ns1 … pk nsk  -> the same with `nsm` = the namespace manager whose bindings are the pairs
     rt T              -> rebuild (reduce T)  as a term | error:<e>
     mk <norm> <lex> <lang|-> <dt|->  -> Literal.__new__ | error:<e>
     sort T1 … Tn      -> the terms sorted with `<` (insertion sort), separated by ` ; `
@@ -60,6 +61,14 @@ partial def terms? (ws : List String) : Option (List Term) :=
     let ts ← terms? rest
     pure (t :: ts)
 
+def pairs? : List String → Option (List (Str × Str))
+  | [] => some []
+  | a :: b :: rest => do
+    let a ← str? a; let b ← str? b
+    let r ← pairs? rest
+    pure ((a, b) :: r)
+  | _ => none
+
 def b01 (b : Bool) : String := if b then "1" else "0"
 
 def showErr : Err → String
@@ -99,6 +108,10 @@ def step (s : Unit) : List String → Unit × String
     match str? txt with
     | some t => (s, showRd (fromN3 drvExt (nz = "1") t))
     | none => (s, "bad-op")
+  | "rdq" :: nz :: txt :: rest =>
+    match str? txt, pairs? rest with
+    | some t, some tbl => (s, showRd (fromN3 { drvExt with nsm := some tbl } (nz = "1") t))
+    | _, _ => (s, "bad-op")
   | "rt" :: rest =>
     match term? rest with
     | some (t, []) =>
